@@ -5,11 +5,12 @@
 HERE="$(cd "$(dirname "$0")/.." && pwd)"; cd "$HERE" || exit 2
 SEEDARG=""; if [ "$1" = "-s" ]; then SEEDARG="-s $2"; shift 2; fi
 ID="$1"; shift; NS="$*"
+SRC="${MW_PREFIX:-/tmp/mw/}$ID"
 TAKEN=""
 for n in $NS; do
-  S=/tmp/mw/stage/$ID-$n; mkdir -p $S; cp /tmp/mw/$ID/out/$n/patch.diff /tmp/mw/$ID/out/$n/demo.diff /tmp/mw/$ID/out/$n/meta.json $S/ || continue
+  S=/tmp/mw/stage/$ID-$n; mkdir -p $S; cp $SRC/out/$n/patch.diff $SRC/out/$n/demo.diff $SRC/out/$n/meta.json $S/ || continue
   if ! git -C /repo apply --check $S/patch.diff 2>/dev/null; then echo "$ID-$n PATCH-DOES-NOT-APPLY-TO-/repo-HEAD"; continue; fi
-  r=$(sh tools/confirm_mutant.sh /tmp/mw/$ID $S 2>&1 | tail -1); echo "$r"
+  r=$(sh tools/confirm_mutant.sh $SRC $S 2>&1 | tail -1); echo "$r"
   case "$r" in *"demo_without_patch=0 demo_with_patch=0"*|*"suite_with_patch=1"*|*"suite_with_patch=101"*|*"demo_without_patch=1"*|*"does not apply"*) echo "$ID-$n NOT-CONFIRMED"; continue;; esac
   mkdir -p seeded/$ID-$n; cp $S/patch.diff $S/demo.diff $S/meta.json seeded/$ID-$n/
   TAKEN="$TAKEN $ID-$n"
